@@ -815,6 +815,28 @@ func scenario() {
 		}
 	}
 
+	// a count file whose directory entry is a symbolic link (data relocated to another volume):
+	// it is read, folded and removed like any other
+	if !forced && (tag == "c07" || tag == "c05") && rnd.Chance(18) {
+		es, _ := os.ReadDir(w.local)
+		var cands []string
+		for _, e := range es {
+			if strings.HasSuffix(e.Name(), ".v1.count") && e.Type().IsRegular() {
+				cands = append(cands, e.Name())
+			}
+		}
+		if len(cands) > 0 {
+			name := Pick(rnd, cands)
+			vol := filepath.Join(dir, "vol2")
+			os.MkdirAll(vol, 0777)
+			if os.Rename(filepath.Join(w.local, name), filepath.Join(vol, name)) == nil {
+				if os.Symlink(filepath.Join(vol, name), filepath.Join(w.local, name)) == nil {
+					out.Note("count-file-is-symlink")
+				}
+			}
+		}
+	}
+
 	// count files with a valid header and metadata whose hash chains leave the file: a file that
 	// grew beyond its first page and was truncated, or a record whose link points past the end.
 	// Expired like the others: only the parser's refusal keeps the uploader away from them.
